@@ -147,6 +147,9 @@ func (clnt *Clnt) recv() {
 
 		n, oerr := clnt.conn.Read(buf[pos:])
 		if oerr != nil || n == 0 {
+			if oerr == nil {
+				oerr = &Error{"zero-length read", EIO}
+			}
 			err = &Error{oerr.Error(), EIO}
 			clnt.Lock()
 			clnt.err = err
@@ -157,6 +160,14 @@ func (clnt *Clnt) recv() {
 		pos += n
 		for pos > 4 {
 			sz, _ := Gint32(buf)
+			if sz > atomic.LoadUint32(&clnt.Msize) || sz < 7 {
+				// no valid reply is longer than msize or shorter than a header
+				clnt.Lock()
+				clnt.err = &Error{"bad frame size", EINVAL}
+				_ = clnt.conn.Close()
+				clnt.Unlock()
+				goto closed
+			}
 			if pos < int(sz) {
 				if len(buf) < int(sz) {
 					b := make([]byte, atomic.LoadUint32(&clnt.Msize)*8)
